@@ -21,7 +21,7 @@ ASSUMPTIONS = ['at most one instance of a unique middleware type inside any sing
 REQUIRED_REACH = ['constructed', 'requests-on-accepted', 'beh:raise_before', 'beh:raise_after', 'beh:short', 'beh:swallow',
                   'beh:replace', 'beh:short_ctx', 'beh:ep-resp', 'beh:ep-raise', 'beh:rn-raise', 'levels:2', 'levels:3',
                   'dup-unique-across-levels', 'nonreorderable-dup', 'phase-seen:request', 'phase-seen:endpoint',
-                  'phase-seen:render', 'flavour:base', 'flavour:http']
+                  'phase-seen:render', 'sibling-routes-with-own-middlewares', 'flavour:base', 'flavour:http']
 NSHARDS = 16
 MW_BEH = ['raise_before', 'raise_after', 'short', 'short_ctx', 'swallow', 'replace']
 
